@@ -76,17 +76,7 @@ Definition R4_specs : stable :=
 Definition first_lla_option (off : nat) (ty : N) : spec := fun l =>
   if Nat.leb (off + 8) (blen l) && (bits l (8 * off) 8 =? ty) && (bits l (8 * off + 8) 8 =? 1)
   then VR (off + 2) 6 else VNil.
-(* RS (4.1): type code checksum reserved(4) options *)
-Definition RS_specs : stable :=
-  [sp "Checksum" (sfield 16 16); sp "Code" (sfield 8 8); nospec "Options";
-   sp "SourceLLA" (first_lla_option 8 1); sp "String" sreturns; sp "Type" (sfield 0 8)].
-(* RA (4.2, flags per RFC 4191 / RFC 4389): hop limit, M O H Prf(2) P, lifetime, reachable, retrans *)
-Definition RA_specs : stable :=
-  [sp "Checksum" (sfield 16 16); sp "Code" (sfield 8 8); sp "CurrentHopLimit" (sfield 32 8);
-   sp "Flags" (sfield 40 8); sp "HomeAgent" (sflag 42); sp "Lifetime" (sfield 48 16);
-   sp "ManagedConfiguration" (sflag 40); nospec "Options"; sp "OtherConfiguration" (sflag 41);
-   sp "Preference" (sfield 43 2); sp "ProxyFlag" (sflag 45); sp "ReachableTime" (sfield 64 32);
-   sp "RetransmitTimer" (sfield 96 32); sp "String" sreturns; sp "Type" (sfield 0 8)].
+(* RS_specs and RA_specs are in Spec/ViewsNDP.v (their Options() need the option specs) *)
 (* NA (4.4): R S O, target, options *)
 Definition NA_specs : stable :=
   [sp "Checksum" (sfield 16 16); sp "Code" (sfield 8 8); sp "Override" (sflag 34); sp "Router" (sflag 32);
